@@ -1802,3 +1802,193 @@ def lle_h_pieces(s1, s2, K, j):
 def lle_local(s1, s2, K, j):
     """C07: a recreated value of an interval reads only that interval's and the two adjacent intervals' averages"""
     return fe(s2, K, j) == fe(s1, K, j)
+
+
+# =============================================================================== lemmas over the LinearAdaptiveRFA closed form
+
+def lina_wf(self):
+    return series_in(self) and self.a >= 2 and self.a <= self.n and self.adaptive_smooth > 0
+
+
+LBA = 'lemma:rfa.linear_adaptive.bounds'
+contract(LBA, params=dict(self=Obj(LINA), K=Int, j=Int), lemma=True, no_rt=True)
+
+
+@requires(LBA)
+def lba_pre(self, K, j):
+    return lina_wf(self) and interior(self, K, j)
+
+
+@hint(LBA, when='entry')
+def lba_h_windows(self, K, j):
+    """window sizes are within 0..a (trunc of a value clipped to [1, a], a div 2, 0 or 1)"""
+    return (0 <= wl(self, K) and wl(self, K) <= self.a and 0 <= wr(self, K) and wr(self, K) <= self.a
+            and 0 <= wr(self, K - 1) and wr(self, K - 1) <= self.a and 0 <= wl(self, K + 1) and wl(self, K + 1) <= self.a)
+
+
+@hint(LBA, when='entry')
+def lba_h_ties(self, K, j):
+    """a side without a window is a side without a jump (or the other side has none either)"""
+    return (implies(wr(self, K - 1) == 0 and wl(self, K) == 0 and K >= 2, ye(self, K - 1) == ye(self, K))
+            and implies(wr(self, K) == 0 and wl(self, K + 1) == 0 and K <= len(self.x) - 2, ye(self, K) == ye(self, K + 1)))
+
+
+@hint(LBA, when='entry')
+def lba_h_order(self, K, j):
+    return (implies(wr(self, K - 1) >= 1, xl(self, K, wr(self, K - 1)) < xe(self, K, 0))
+            and implies(wl(self, K) >= 1, xe(self, K, 0) < xr(self, K, wl(self, K)))
+            and implies(wr(self, K) >= 1, xr(self, K, self.n - wr(self, K)) < xe(self, K + 1, 0))
+            and implies(wl(self, K + 1) >= 1, xe(self, K + 1, 0) < xr(self, K + 1, wl(self, K + 1)))
+            and xl(self, K, wr(self, K - 1)) <= xe(self, K, 0) and xe(self, K, 0) <= xr(self, K, wl(self, K))
+            and xr(self, K, self.n - wr(self, K)) <= xe(self, K + 1, 0) and xe(self, K + 1, 0) <= xr(self, K + 1, wl(self, K + 1)))
+
+
+@hint(LBA, when='entry')
+def lba_h_order_j(self, K, j):
+    return (implies(j < wl(self, K), xe(self, K, 0) <= xe(self, K, j) and xe(self, K, j) < xr(self, K, wl(self, K)))
+            and implies(j > self.n - wr(self, K), xr(self, K, self.n - wr(self, K)) < xr(self, K, j) and xr(self, K, j) <= xe(self, K + 1, 0)))
+
+
+@hint(LBA, when='entry')
+def lba_h_borders(self, K, j):
+    return between(z0a(self, K), ye(self, K - 1), ye(self, K)) and between(z0a(self, K + 1), ye(self, K), ye(self, K + 1))
+
+
+@ensures(LBA)
+def lba_plateau(self, K, j):
+    """C05: between the two windows the samples equal the average"""
+    return implies(wl(self, K) <= j and j <= self.n - wr(self, K) and j >= 1, fa(self, K, j) == ye(self, K))
+
+
+@ensures(LBA)
+def lba_first(self, K, j):
+    return between(ba(self, K), ye(self, K - 1), ye(self, K))
+
+
+@ensures(LBA)
+def lba_left(self, K, j):
+    """C05: left transition samples lie between the two adjacent averages"""
+    return implies(j < wl(self, K), between(fa(self, K, j), ye(self, K - 1), ye(self, K)))
+
+
+@ensures(LBA)
+def lba_right(self, K, j):
+    return implies(j > self.n - wr(self, K), between(fa(self, K, j), ye(self, K), ye(self, K + 1)))
+
+
+def same_setup_a(s1, s2):
+    return (len(s1.x) == len(s2.x) and s1.n == s2.n and s1.a == s2.a and s1.adaptive_smooth == s2.adaptive_smooth)
+
+
+LLA = 'lemma:rfa.linear_adaptive.locality'
+contract(LLA, params=dict(s1=Obj(LINA), s2=Obj(LINA), K=Int, j=Int), lemma=True, no_rt=True)
+
+
+@requires(LLA)
+def lla_pre(s1, s2, K, j):
+    return (lina_wf(s1) and lina_wf(s2) and same_setup_a(s1, s2) and interior(s1, K, j)
+            and forall(range(len(s1.x)), lambda i: s2.x[i] == s1.x[i])
+            # the averages of the interval (original index K-1) and of TWO neighbours on each side agree; all others are arbitrary
+            and forall(range(len(s1.x)), lambda i: s2.y[i] == s1.y[i] if (K - 3 <= i and i <= K + 1) else True)
+            and 3 <= K and K <= len(s1.x) - 3)
+
+
+@hint(LLA, when='entry')
+def lla_h_averages(s1, s2, K, j):
+    return (ye(s2, K - 2) == ye(s1, K - 2) and ye(s2, K - 1) == ye(s1, K - 1) and ye(s2, K) == ye(s1, K) and ye(s2, K + 1) == ye(s1, K + 1)
+            and ye(s2, K + 2) == ye(s1, K + 2))
+
+
+@hint(LLA, when='entry')
+def lla_h_windows(s1, s2, K, j):
+    """the adaptive windows of the interval and of the two borders read only these five averages"""
+    return (wl(s2, K) == wl(s1, K) and wr(s2, K) == wr(s1, K) and wr(s2, K - 1) == wr(s1, K - 1) and wl(s2, K + 1) == wl(s1, K + 1))
+
+
+@hint(LLA, when='entry')
+def lla_h_grid(s1, s2, K, j):
+    return (xe(s2, K, j) == xe(s1, K, j) and xe(s2, K, 0) == xe(s1, K, 0) and xe(s2, K + 1, 0) == xe(s1, K + 1, 0)
+            and xr(s2, K, j) == xr(s1, K, j) and xr(s2, K, wl(s1, K)) == xr(s1, K, wl(s1, K))
+            and xr(s2, K, s1.n - wr(s1, K)) == xr(s1, K, s1.n - wr(s1, K)) and xl(s2, K, wr(s1, K - 1)) == xl(s1, K, wr(s1, K - 1))
+            and xl(s2, K + 1, wr(s1, K)) == xl(s1, K + 1, wr(s1, K)) and xr(s2, K + 1, wl(s1, K + 1)) == xr(s1, K + 1, wl(s1, K + 1)))
+
+
+@hint(LLA, when='entry')
+def lla_h_borders(s1, s2, K, j):
+    return z0a(s2, K) == z0a(s1, K) and z0a(s2, K + 1) == z0a(s1, K + 1) and ba(s2, K) == ba(s1, K)
+
+
+@hint(LLA, when='entry')
+def lla_h_pieces(s1, s2, K, j):
+    return fal(s2, K, j) == fal(s1, K, j) and far(s2, K, j) == far(s1, K, j)
+
+
+@ensures(LLA)
+def lla_local(s1, s2, K, j):
+    """C07: a recreated value of an interval reads only that interval's average and two neighbours on each side"""
+    return fa(s2, K, j) == fa(s1, K, j)
+
+
+LEA = 'lemma:rfa.linear_adaptive.equivariance_y'
+contract(LEA, params=dict(s1=Obj(LINA), s2=Obj(LINA), al=Real, be=Real, K=Int, j=Int), lemma=True, no_rt=True)
+
+
+@requires(LEA)
+def lea_pre(s1, s2, al, be, K, j):
+    return (lina_wf(s1) and lina_wf(s2) and same_setup_a(s1, s2) and interior(s1, K, j) and al != 0 and 2 <= K and K <= len(s1.x) - 2
+            and forall(range(len(s1.x)), lambda i: s2.y[i] == al * s1.y[i] + be and s2.x[i] == s1.x[i]))
+
+
+@hint(LEA, when='entry')
+def lea_h_averages(s1, s2, al, be, K, j):
+    return (ye(s2, K - 2) == al * ye(s1, K - 2) + be and ye(s2, K - 1) == al * ye(s1, K - 1) + be and ye(s2, K) == al * ye(s1, K) + be
+            and ye(s2, K + 1) == al * ye(s1, K + 1) + be and ye(s2, K + 2) == al * ye(s1, K + 2) + be)
+
+
+def abs_al(al):
+    return al if al >= 0 else -al
+
+
+@hint(LEA, when='entry')
+def lea_h_jumps(s1, s2, al, be, K, j):
+    """absolute jumps scale by |al|"""
+    return (jr(s2, K) == abs_al(al) * jr(s1, K) and jl(s2, K) == abs_al(al) * jl(s1, K)
+            and jr(s2, K - 1) == abs_al(al) * jr(s1, K - 1) and jl(s2, K - 1) == abs_al(al) * jl(s1, K - 1)
+            and jr(s2, K + 1) == abs_al(al) * jr(s1, K + 1) and jl(s2, K + 1) == abs_al(al) * jl(s1, K + 1))
+
+
+@hint(LEA, when='entry')
+def lea_h_ratios(s1, s2, al, be, K, j):
+    """so the ratios of jumps - all the windows depend on - are unchanged"""
+    return (implies(jl(s1, K) != 0, jr(s2, K) / jl(s2, K) == jr(s1, K) / jl(s1, K))
+            and implies(jl(s1, K - 1) != 0, jr(s2, K - 1) / jl(s2, K - 1) == jr(s1, K - 1) / jl(s1, K - 1))
+            and implies(jl(s1, K + 1) != 0, jr(s2, K + 1) / jl(s2, K + 1) == jr(s1, K + 1) / jl(s1, K + 1)))
+
+
+@hint(LEA, when='entry')
+def lea_h_windows(s1, s2, al, be, K, j):
+    return (wl(s2, K) == wl(s1, K) and wr(s2, K) == wr(s1, K) and wr(s2, K - 1) == wr(s1, K - 1) and wl(s2, K + 1) == wl(s1, K + 1))
+
+
+@hint(LEA, when='entry')
+def lea_h_grid(s1, s2, al, be, K, j):
+    return (xe(s2, K, j) == xe(s1, K, j) and xe(s2, K, 0) == xe(s1, K, 0) and xe(s2, K + 1, 0) == xe(s1, K + 1, 0)
+            and xr(s2, K, j) == xr(s1, K, j) and xr(s2, K, wl(s1, K)) == xr(s1, K, wl(s1, K))
+            and xr(s2, K, s1.n - wr(s1, K)) == xr(s1, K, s1.n - wr(s1, K)) and xl(s2, K, wr(s1, K - 1)) == xl(s1, K, wr(s1, K - 1))
+            and xl(s2, K + 1, wr(s1, K)) == xl(s1, K + 1, wr(s1, K)) and xr(s2, K + 1, wl(s1, K + 1)) == xr(s1, K + 1, wl(s1, K + 1)))
+
+
+@hint(LEA, when='entry')
+def lea_h_borders(s1, s2, al, be, K, j):
+    return z0a(s2, K) == al * z0a(s1, K) + be and z0a(s2, K + 1) == al * z0a(s1, K + 1) + be and ba(s2, K) == al * ba(s1, K) + be
+
+
+@hint(LEA, when='entry')
+def lea_h_pieces(s1, s2, al, be, K, j):
+    return fal(s2, K, j) == al * fal(s1, K, j) + be and far(s2, K, j) == al * far(s1, K, j) + be
+
+
+@ensures(LEA)
+def lea_commutes(s1, s2, al, be, K, j):
+    """C07: y -> al*y + be (al != 0) commutes with LinearAdaptiveRFA: the windows depend on ratios of absolute jumps only"""
+    return fa(s2, K, j) == al * fa(s1, K, j) + be
